@@ -2,7 +2,7 @@
 
 use crate::c01::{gen_ctx, gen_random_tape, random_size};
 use crate::common::*;
-use crate::p3forge::forge;
+use crate::p3forge::{forge, forge_ex, joint_rands_from_parts};
 use crate::proto::*;
 use crate::zoo::*;
 use prio::codec::{Encode, ParameterizedDecode};
@@ -467,6 +467,241 @@ impl Prio3Visitor for V02<'_> {
     }
 }
 
+// ---------------------------------------------------------------------------------------------
+// (c) The adaptive client: non-bit values chosen AFTER reading the joint randomness
+// ---------------------------------------------------------------------------------------------
+
+fn powmod(mut b: u128, mut e: u128, p: u128) -> u128 {
+    let mut r = 1u128;
+    while e > 0 {
+        if e & 1 == 1 {
+            r = mulmod(r, b, p);
+        }
+        b = mulmod(b, b, p);
+        e >>= 1;
+    }
+    r
+}
+
+/// Square root modulo the (NTT-friendly) prime `p` by Tonelli-Shanks; None for non-residues.
+fn sqrtmod(a: u128, p: u128, rng: &mut Rng64) -> Option<u128> {
+    if a == 0 {
+        return Some(0);
+    }
+    if powmod(a, (p - 1) / 2, p) != 1 {
+        return None;
+    }
+    let (mut q, mut s) = (p - 1, 0u32);
+    while q % 2 == 0 {
+        q /= 2;
+        s += 1;
+    }
+    let z = loop {
+        let z = 2 + rng.u128() % (p - 3);
+        if powmod(z, (p - 1) / 2, p) == p - 1 {
+            break z;
+        }
+    };
+    let (mut m, mut c, mut t, mut r) = (s, powmod(z, q, p), powmod(a, q, p), powmod(a, q.div_ceil(2), p));
+    while t != 1 {
+        let mut i = 0u32;
+        let mut t2 = t;
+        while t2 != 1 {
+            t2 = mulmod(t2, t2, p);
+            i += 1;
+        }
+        let mut b = c;
+        for _ in 0..(m - i - 1) {
+            b = mulmod(b, b, p);
+        }
+        m = i;
+        c = mulmod(b, b, p);
+        t = mulmod(t, c, p);
+        r = mulmod(r, b, p);
+    }
+    Some(r)
+}
+
+struct V02Adaptive<'a> {
+    rng: &'a mut Rng64,
+}
+
+impl V02Adaptive<'_> {
+    /// The joint-randomness parts the LIBRARY's aggregators derive for these shares, read off their
+    /// round-one verifier shares (public API; a malicious client can run this locally).
+    fn library_parts<T: Kinded, P: Xof<32>>(vdaf: &Prio3<T, P, 32>, key: &[u8; 32], vctx: &[u8], nonce: &[u8; 16], ps: &[u8], isb: &[Vec<u8>]) -> Option<Vec<[u8; 32]>>
+    where
+        T::Field: ZField,
+    {
+        let n = isb.len();
+        let mut rec: Vec<Option<[u8; 32]>> = vec![None; n];
+        {
+            let mut hook = |pt: Point, b: &mut Vec<u8>| {
+                if let Point::VerifierShare(0, i) = pt {
+                    if i < n && b.len() >= 32 {
+                        rec[i] = Some(<[u8; 32]>::try_from(&b[b.len() - 32..]).unwrap());
+                    }
+                }
+            };
+            let mut st = WireStats::default();
+            let mut an = None;
+            let _ = verify_report_simple::<_, 32>(vdaf, key, vctx, &(), nonce, ps, isb, &mut hook, &mut st, &mut an);
+        }
+        rec.into_iter().collect()
+    }
+}
+
+impl Prio3Visitor for V02Adaptive<'_> {
+    fn visit<T: Kinded, P: Xof<32>>(&mut self, ctx: &mut Ctx, p: &Params, cfg: &VdafCfg, vdaf: Prio3<T, P, 32>)
+    where
+        T::Field: ZField,
+    {
+        let rng = &mut *self.rng;
+        let fp = p.p;
+        let desc = format!("{} aggs={} proofs={} xof={}", p.describe(), cfg.aggs, cfg.proofs, if cfg.hmac_xof { "hmac" } else { "turboshake" });
+        let typ = T::build(p).unwrap();
+        let n = typ.input_len();
+        if p.kind != Kind::SumVec || cfg.proofs != 1 || n < 2 {
+            return;
+        }
+        let vctx = gen_ctx(rng, cfg.hmac_xof);
+        let nonce: [u8; 16] = rng.array();
+        let own_key: [u8; 32] = rng.array();
+        let m = p.gen_measurement(rng);
+        let valid: Vec<u128> = p.encode_ref(&m);
+        let tape = rng.bytes(random_size(p, cfg));
+        // honest base report (spec-level forge; must agree with the library on honest data)
+        let Ok(Ok(f1)) = catch(|| forge::<T, P>(&typ, cfg, &vctx, &nonce, &ints_to_field::<T::Field>(&valid), &tape)) else { return };
+        let Some(parts) = Self::library_parts(&vdaf, &own_key, &vctx, &nonce, &f1.public_share, &f1.input_shares) else {
+            ctx.count("adaptive_parts_not_observable");
+            return;
+        };
+        ctx.nontrivial(digest_str(&format!("adaptive|{desc}")));
+        // positions (i < j) of the two non-bits: leading, trailing, spread, block boundaries, random
+        let esz = <T::Field as prio::field::FieldElement>::ENCODED_SIZE;
+        let per_block = 4096 / esz;
+        let mut pairs: Vec<(usize, usize)> = vec![(0, 1), (n - 2, n - 1), (0, n - 1), (0, n / 2)];
+        if n > per_block + 1 {
+            pairs.extend([(per_block - 1, per_block), (0, per_block), (1, n - per_block.min(n - 2))]);
+        }
+        for _ in 0..3 {
+            let i = rng.usize_below(n - 1);
+            pairs.push((i, i + 1 + rng.usize_below(n - 1 - i)));
+        }
+        pairs.retain(|(i, j)| i < j && *j < n);
+        pairs.dedup();
+        for (i, j) in pairs {
+            ctx.eval();
+            ctx.count("adaptive_attempts");
+            // joint randomness as the aggregators will derive it from the published parts
+            let jr: Vec<u128> = field_to_ints(&joint_rands_from_parts::<T, P>(&typ, cfg, &vctx, &parts));
+            let coef = |t: usize| powmod(jr[t / p.chunk], (t % p.chunk) as u128 + 1, fp);
+            let (ci, cj) = (coef(i), coef(j));
+            if cj == 0 {
+                continue;
+            }
+            // x(x-1) c_i + y(y-1) c_j = 0
+            let mut sol = None;
+            for x in 2u128..40 {
+                let c = mulmod(submod(0, mulmod(ci, mulmod(x, x - 1, fp), fp), fp), powmod(cj, fp - 2, fp), fp);
+                let disc = addmod(1, mulmod(4, c, fp), fp);
+                if let Some(sq) = sqrtmod(disc, fp, rng) {
+                    let y = mulmod(addmod(1, sq, fp), powmod(2, fp - 2, fp), fp);
+                    if y > 1 {
+                        sol = Some((x, y));
+                        break;
+                    }
+                }
+            }
+            let Some((x, y)) = sol else { continue };
+            // self-check of the algebra (harness only)
+            let chk = addmod(mulmod(ci, mulmod(x, x - 1, fp), fp), mulmod(cj, mulmod(y, submod(y, 1, fp), fp), fp), fp);
+            if chk != 0 {
+                ctx.inconclusive("adaptive client: the solved non-bit pair does not cancel (harness algebra bug)");
+                return;
+            }
+            let mut bad = valid.clone();
+            bad[i] = x;
+            bad[j] = y;
+            let Ok(Ok(f2)) = catch(|| forge_ex::<T, P>(&typ, cfg, &vctx, &nonce, &ints_to_field::<T::Field>(&bad), &tape, Some(&parts))) else { continue };
+            // Do the aggregators still derive the same parts for the CHANGED shares? If not, the joint
+            // randomness moved with the measurement share, the pair no longer cancels: attack defeated.
+            match Self::library_parts(&vdaf, &own_key, &vctx, &nonce, &f2.public_share, &f2.input_shares) {
+                Some(p2) if p2 == parts => ctx.count("adaptive_joint_randomness_did_not_move"),
+                _ => {
+                    ctx.count("adaptive_defeated_joint_randomness_bound_to_share");
+                    continue;
+                }
+            }
+            // The joint randomness ignored the two altered elements: submit the forged report.
+            let mut acc = 0;
+            let mut sum = None;
+            let mut keys = vec![];
+            for _ in 0..4 {
+                let key: [u8; 32] = rng.array();
+                keys.push(hex(&key));
+                let mut st = WireStats::default();
+                let mut an = None;
+                let o = verify_report_simple::<_, 32>(&vdaf, &key, &vctx, &(), &nonce, &f2.public_share, &f2.input_shares, &mut no_tamper, &mut st, &mut an);
+                ctx.eval();
+                if let Outcome::Finished(outs) = o {
+                    acc += 1;
+                    let ob: Vec<Vec<u8>> = outs.iter().map(|x| x.get_encoded().unwrap()).collect();
+                    sum = Some(sum_outputs(&ob, p.output_len(), p.p));
+                } else {
+                    break;
+                }
+            }
+            if acc == 4 {
+                let valid_out = sum.as_ref().map(|s| p.output_is_valid(s));
+                ctx.violation("SumVec|adaptive-two-nonbits-accepted".to_string(),
+                    "a client that chose two non-bit entries AFTER reading the joint randomness (which did not change with those entries of its measurement share) was accepted by all aggregators under 4 independent keys",
+                    json!({"config": desc, "positions": [i, j], "values": [x.to_string(), y.to_string()], "output_sum_is_truncation_of_valid_encoding": valid_out,
+                           "nonce": hex(&nonce), "ctx": hex(&vctx), "verify_keys": keys, "public_share": hex_trunc(&f2.public_share, 256),
+                           "leader_input_share_head": hex_trunc(&f2.input_shares[0], 256)}));
+            } else {
+                ctx.count("adaptive_forged_report_rejected_anyway");
+            }
+        }
+    }
+}
+
+fn part_adaptive(ctx: &mut Ctx) {
+    let mut rng = ctx.rng("c02-adaptive");
+    let n_cfg = (ctx.budget(1_600, 48_000) / ctx.nshards as u64).max(4);
+    for i in 0..n_cfg {
+        let fp = if rng.bool() { P64 } else { P128 };
+        // lengths on both sides of one and two 4 KiB encoding blocks (256 / 512 field elements)
+        let len = match i % 8 {
+            0 => 2 + rng.usize_below(6),
+            1 => 20 + rng.usize_below(100),
+            2 => 250 + rng.usize_below(14),
+            3 => 300 + rng.usize_below(300),
+            4 => 505 + rng.usize_below(20),
+            5 => 1020 + rng.usize_below(10),
+            6 => 1100 + rng.usize_below(1500),
+            _ => 2 + rng.usize_below(600),
+        };
+        let max = if rng.chance(3, 4) { 1 } else { 3 };
+        let n = len * bits_of(max);
+        let chunk = match rng.below(4) {
+            0 => 1 + rng.usize_below(n),
+            1 => n,
+            _ => prio::vdaf::prio3::optimal_chunk_length(n),
+        };
+        let p = Params { kind: Kind::SumVec, max, len, chunk, p: fp };
+        let mut cfg = gen_cfg(&mut rng, Kind::SumVec, false);
+        cfg.aggs = 2 + rng.below(3) as u8;
+        cfg.proofs = 1;
+        ctx.trace(|| format!("adaptive cfg {i}: {} {:?}", p.describe(), cfg));
+        let mut rng2 = Rng64::derive(ctx.seed, &["c02-adaptive-case"], i * 7001 + ctx.shard as u64);
+        let mut v = V02Adaptive { rng: &mut rng2 };
+        if let Err(e) = with_prio3(ctx, &p, &cfg, &mut v) {
+            ctx.inconclusive(format!("constructor refused {}: {e}", p.describe()));
+        }
+    }
+}
+
 pub fn run(ctx: &mut Ctx) {
     let mut rng = ctx.rng("c02");
     let n_cfg = ctx.budget(10_000, 1_000_000) / ctx.nshards as u64;
@@ -489,6 +724,7 @@ pub fn run(ctx: &mut Ctx) {
             ctx.inconclusive(format!("constructor refused {}: {e}", p.describe()));
         }
     }
+    part_adaptive(ctx);
     if ctx.counters.get("forge_selfcheck_ok").copied().unwrap_or(0) == 0 {
         ctx.inconclusive("forge self-check never matched shard_with_random: invalid-input reports could not be produced");
     }
